@@ -245,6 +245,10 @@ def part_store(ctx, cfg):
     for var in ('set', 'split', 'nul'):
         if ctx.flag('ex'):
             explicit[var] = ctx.int('xv', -2, 2)
+    # a listed state that reaches INSIDE the dictionary-valued variable of
+    # daughter 0 (the default divider hands both daughters the mother's
+    # dictionary): daughter 1 keeps the mother's content
+    mut_explicit = ctx.flag('exmut')
     if explicit:
         ctx.goal('explicit initial state overrides a share')
 
@@ -256,6 +260,9 @@ def part_store(ctx, cfg):
                 dd['processes'] = {'holder': Holder()}
                 dd['topology'] = {'holder': {'s': ('s',)}}
             dd['initial_state'] = {'s': dict(explicit)} if i == 0 else {}
+            if i == 0 and mut_explicit:
+                dd['initial_state'].setdefault('s', {})['mut'] = {
+                    'k': {'f': 77}}
             if i == 0 and env_explicit:
                 dd['initial_state']['env'] = dict(env_explicit)
             ds.append(dd)
@@ -325,6 +332,8 @@ def part_store(ctx, cfg):
     ctx.claim('C11.shares', 'bad_divider_arg' not in CTX,
               sig='branch-divider-argument',
               info=lambda: dict(received=CTX.get('bad_divider_arg')))
+    sh.append(EQ(s1['mut']['k']['f'], mut['k']['f']))
+    sh.append(EQ(s0['mut']['k']['f'], 77 if mut_explicit else mut['k']['f']))
     ctx.claim('C11.shares', AND(sh), sig='shares', info=info)
     # variables declared only by the glob schema of an outside process
     e0, e1 = ag['m0'].get('env', {}), ag['m1'].get('env', {})
@@ -374,6 +383,7 @@ def part_store(ctx, cfg):
         ctx.goal('second generation')
         explicit.clear()
         env_explicit.clear()
+        mut_explicit = False
         CTX['queue'].append({'_divide': {'mother': 'm1',
                                          'daughters': daughters('m1')}})
         m1 = get(e.state.get_value(), pre)['agents']['m1']['s']
